@@ -328,26 +328,58 @@ for _n in ('setdefault', 'pop', '__setitem__'):
 _transparent(dict, 'update')
 
 
+def _key_eq(interp, a, b):
+    """a == b for dict keys where at least one side is symbolic text: bool or SBool."""
+    import ast as _ast
+    if isinstance(a, (Sym, FmtStr)) or isinstance(b, (Sym, FmtStr)):
+        ta = a.pytype if isinstance(a, (SStr, FmtStr)) else type(a)
+        tb = b.pytype if isinstance(b, (SStr, FmtStr)) else type(b)
+        if ta is not tb and not (ta in (int, bool) and tb in (int, bool)):
+            return False
+        return interp.compare(_ast.Eq(), a, b)
+    return a == b
+
+
 def sym_key_lookup(interp, d, key):
-    """Lookup of a symbolic string key in a concrete dict: forks on equality with each concrete key
-    of the same kind.  Returns (found, value)."""
-    from .text import fmt_to_sstr
-    if isinstance(key, FmtStr):
-        key = fmt_to_sstr(key)
-    if not isinstance(key, SStr):
+    """Lookup in a concrete dict where the key, or some stored key, is symbolic text: forks on equality with
+    each stored key of the same kind.  Returns (found, value)."""
+    if isinstance(key, (Sym, FmtStr)) and not isinstance(key, (SStr, FmtStr)):
         raise Unsupported("dict lookup with symbolic key %r" % (key,))
-    for k in list(d.keys()):
-        if isinstance(k, Sym):
-            raise Unsupported("dict with symbolic keys")
-        if isinstance(k, key.pytype):
-            if interp.ctx.branch(key.t == key._lit(k)):
-                return True, d[k]
+    if not isinstance(key, (Sym, FmtStr)):
+        try:
+            if dict.__contains__(d, key):
+                return True, dict.__getitem__(d, key)
+        except TypeError:
+            raise
+    for k in list(dict.keys(d)):
+        if not isinstance(key, (Sym, FmtStr)) and not isinstance(k, (Sym, FmtStr)):
+            continue
+        r = _key_eq(interp, key, k)
+        if r is False:
+            continue
+        if r is True or interp.ctx.branch(r.t):
+            return True, dict.__getitem__(d, k)
     return False, None
+
+
+def sym_key_store(interp, d, key, value):
+    """d[key] = value with symbolic text as key: the existing entry whose key equals it is overwritten (fork per
+    stored key); otherwise the symbolic key itself becomes a new entry (hashed by identity; every later lookup in
+    this dict goes through sym_key_lookup)."""
+    for k in list(dict.keys(d)):
+        r = _key_eq(interp, key, k)
+        if r is False:
+            continue
+        if r is True or interp.ctx.branch(r.t):
+            dict.__setitem__(d, k, value)
+            return
+    dict.__setitem__(d, key, value)
+    interp.symkey_dicts[id(d)] = d
 
 
 @_method(dict, 'get')
 def m_dict_get(interp, d, key, default=None):
-    if isinstance(key, (Sym, FmtStr)):
+    if isinstance(key, (Sym, FmtStr)) or id(d) in interp.symkey_dicts:
         found, v = sym_key_lookup(interp, d, key)
         return v if found else default
     return d.get(key, default)
@@ -355,7 +387,7 @@ def m_dict_get(interp, d, key, default=None):
 
 @_method(dict, '__getitem__')
 def m_dict_getitem(interp, d, key):
-    if isinstance(key, (Sym, FmtStr)):
+    if isinstance(key, (Sym, FmtStr)) or id(d) in interp.symkey_dicts:
         found, v = sym_key_lookup(interp, d, key)
         if not found:
             raise KeyError(key)
@@ -365,7 +397,7 @@ def m_dict_getitem(interp, d, key):
 
 @_method(dict, '__contains__')
 def m_dict_contains(interp, d, key):
-    if isinstance(key, (Sym, FmtStr)):
+    if isinstance(key, (Sym, FmtStr)) or id(d) in interp.symkey_dicts:
         return sym_key_lookup(interp, d, key)[0]
     return key in d
 
